@@ -408,7 +408,13 @@ func (x *Exec) applyContract(fr *Frame, st *State, fn *ssa.Function, con *Contra
 			x.addFact(x.tt.And(x.tt.Ge(x.tt.UF("birth$", "Int", r), pre.clk), x.tt.Gt(r, x.tt.IntLit(0)), x.tt.UF("isbase$", "Bool", r)))
 		}
 	}
+	if con.Recycled && len(results) > 0 {
+		x.applyRecycled(st, pre, asTerm(results[0]), res.At(0).Type())
+	}
 	for _, c := range con.Ensures {
+		if hasTag(c.Tags, "local") {
+			continue // proved for the callee, deliberately not exported to callers (keeps callers' quantifier load small)
+		}
 		x.addFact(x.evalBool(mkEnv(st, results), c.Expr))
 	}
 	switch len(results) {
@@ -418,6 +424,31 @@ func (x *Exec) applyContract(fr *Frame, st *State, fn *ssa.Function, con *Contra
 		return results[0]
 	}
 	return &Agg{Elems: results, T: res}
+}
+
+// applyRecycled: r is an object handed out by a pool: non-nil, fresh or redeemed before, live now, fields unknown.
+func (x *Exec) applyRecycled(st, pre *State, r *Term, T types.Type) {
+	tt := x.tt
+	gs := arraySort("Int", "Bool")
+	gpre := x.heap(pre, "G$redeemed", gs)
+	x.addFact(tt.And(tt.Gt(r, tt.IntLit(0)), tt.UF("isbase$", "Bool", r),
+		tt.Or(tt.Ge(tt.UF("birth$", "Int", r), pre.clk), tt.Select(gpre, r))))
+	g := x.heap(st, "G$redeemed", gs)
+	st.heaps["G$redeemed"] = tt.Store(g, r, tt.False())
+	x.recordWrite("G$redeemed", r)
+	if pt, ok := T.Underlying().(*types.Pointer); ok {
+		env := &Env{x: x, st: st, old: pre}
+		for _, t := range env.cellTargets(r, pt.Elem()) {
+			srt := x.heapSorts[t.heap]
+			if srt == "" {
+				srt = t.sort
+			}
+			h := x.heap(st, t.heap, srt)
+			_, es := splitArraySort(srt)
+			st.heaps[t.heap] = tt.Store(h, t.idx, tt.Fresh(t.heap+"@rec", es))
+			x.recordWrite(t.heap, t.idx)
+		}
+	}
 }
 
 // havocLvalue havocs the memory designated by a modifies expression, evaluated in env (pre-state).
@@ -503,7 +534,7 @@ func (x *Exec) doAppend(fr *Frame, st *State, s *Term, tv Value, sT, tT types.Ty
 	if !ok {
 		panic("append: second arg")
 	}
-	if t.Sort == "String" {
+	if t.Sort == x.SS() {
 		// append([]byte, string...)
 		x.note("append of string bytes (havocked)")
 		return x.fresh("append", sT)
